@@ -224,10 +224,10 @@ def gen_program(rng, small=False, col1=False):
     return gen_block(rng, 0, 12 if small else 40, col1)
 
 
-def render(lines):
+def render(lines, offset=0):
     out = []
     for i, l in enumerate(lines, start=1):
-        out.append(l.replace(T, f"t{i}q"))
+        out.append(l.replace(T, f"t{offset + i}q"))
     return "\n".join(out) + ("\n" if out else "")
 
 
@@ -417,3 +417,33 @@ def gen_valid_block(rng, depth):
 def gen_valid_program(rng):
     head = ["program p", "implicit integer (t)", "character(len=200) :: s"]
     return head + gen_valid_block(rng, 0) + ["end program p"]
+
+
+# ---------------------------------------------------------------- include chains from a Fortran file
+HDR_EXT = [".inc", ".h", ".hpp", ".inc", ".h", ".F90", ".f90"]
+
+
+def gen_include_case(rng):
+    """main (.f90/.F90) -> h1 -> h2 [-> h3]: headers with C-family (or Fortran) extensions holding free-form Fortran
+    text (ordinary ! comments, continuations, sentinels, literals) and a #define that the includer tests afterwards.
+    Returns (main_text, [[name, text], ...]) - the headers are meant to live outside the code-base root."""
+    depth = rng.choice([2, 2, 3])
+    names = [f"h{j}{rng.choice(HDR_EXT[:5] if j < depth else HDR_EXT)}" for j in range(1, depth + 1)]
+    texts = [None] * depth
+    for j in range(depth, 0, -1):
+        m = f"HAVE{j}"
+        body = gen_block(rng, 0, 10, True)
+        lines = [indent(rng) + "! header " + rng.choice(["comment", "it isn't code", "x = 1 &", "a \"q\" b"]),
+                 rng.choice(["", indent(rng) + gen_comment(rng)])]
+        if rng.random() < 0.5:
+            lines += gen_stmt(rng)
+        if j < depth:
+            nxt = f"HAVE{j + 1}"
+            lines += [f'#include "{names[j]}"', f"#ifdef {nxt}"] + gen_stmt(rng) + ["#else"] + gen_stmt(rng) + ["#endif"]
+        lines += [f"#define {m}"] + body + [indent(rng) + gen_comment(rng)]
+        texts[j - 1] = render(lines, offset=1000 * j)
+    main = gen_block(rng, 0, 12, True)
+    pos = rng.choice([0, len(main)])
+    inc = [f'#include "{names[0]}"', "#ifdef HAVE1"] + gen_stmt(rng) + ["#else"] + gen_stmt(rng) + ["#endif"]
+    main = main[:pos] + inc + main[pos:]
+    return render(main), [[n, t] for n, t in zip(names, texts)]
